@@ -30,6 +30,7 @@ def corruptions():
     yield "complete, then a dangling !> documentation block", VICTIM + "!> trailing documentation with nothing after it\n"
     yield "ends inside a !| documentation block", VICTIM.replace("end module middle\n", "  !| alternative block\n  ! goes on\n")
     yield "ends on a continuation line", VICTIM.replace("end module middle\n", "  subroutine dangling(a, &\n")
+    yield "a MODULE statement that lost its name", "module\n  integer :: orphan\nend module\n"
     yield "undecodable bytes", b"module bad\n  character :: c = '\xff\xfe\xfa'\nend module bad\n\x80\x81"
 
 
